@@ -10,9 +10,106 @@ Definition inv_fresh (s : state) : Prop :=
   NoDup (omap poll_id s.(opq)) /\
   (forall k pc, s.(running) = Some (OPoll k, pc) -> OPoll k ∉ s.(opq) /\ k < length s.(wctx) /\ (pc = JNew -> s.(wctx) !! k = Some WkFresh)).
 
-Lemma elem_of_omap_poll k l : k ∈ omap poll_id l <-> OPoll k ∈ l.
+Lemma elem_of_omap_poll k (l : list op) : k ∈ omap poll_id l <-> OPoll k ∈ l.
 Proof.
   rewrite elem_of_list_omap. split.
   - intros (o & Ho & Hk). destruct o; cbn in Hk; try done. by injection Hk as ->.
   - intros H. exists (OPoll k). done.
 Qed.
+Lemma step_fresh s a s' : inv_fresh s -> step s a = Some s' -> inv_fresh s'.
+Proof.
+  unfold inv_fresh. intros (F1 & F2 & F3) H. step_cases s H.
+  all: try (split; [exact F1|split; [exact F2|first [exact F3|done]]]).
+  (* the running job moves on *)
+  all: try (split; [exact F1|split; [exact F2|]]; intros k0 pc0 [= <- <-]; destruct (F3 _ _ eq_refl) as (A & B & C);
+            split; [done|split; [done|intros; discriminate]]).
+  (* non-poll operations are queued *)
+  all: try (lazymatch goal with |- context [?q ++ [OFree]] => idtac | |- context [?q ++ [OOther _]] => idtac end;
+            split; [intros k0 [Hk|Hk%elem_of_list_singleton]%elem_of_app; [by apply F1|done]|];
+            split; [rewrite omap_app; cbn; by rewrite app_nil_r|];
+            intros k0 pc0 Hr; destruct (F3 _ _ Hr) as (A & B & C); split; [|done];
+            intros [Hk|Hk%elem_of_list_singleton]%elem_of_app; done).
+  - (* JNew *)
+    destruct (F3 _ _ eq_refl) as (A & B & C). split; [|split; [done|]].
+    + intros k0 Hk. rewrite list_lookup_insert_ne; [by apply F1|]. intros ->. done.
+    + intros k0 pc0 [= <- <-]. rewrite insert_length. split; [done|split; [done|intros; discriminate]].
+  - (* start *)
+    split; [intros k0 Hk; apply F1; by right|]. destruct o as [k| |]; cbn in F2.
+    + apply stdpp.list.NoDup_cons in F2 as [F2a F2b]. split; [done|]. intros k0 pc0 [= <- <-].
+      split; [by rewrite <- elem_of_omap_poll|]. assert (Hf : wctx !! k = Some WkFresh) by (apply F1; by left).
+      split; [by apply lookup_lt_Some in Hf|done].
+    + split; [done|]. intros k0 pc0 [=].
+    + split; [done|]. intros k0 pc0 [=].
+  - (* a waker is taken *)
+    split; [|split; [done|]].
+    + intros k0 Hk. rewrite list_lookup_insert_ne; [by apply F1|]. intros ->. specialize (F1 _ Hk). congruence.
+    + intros k0 pc0 Hr. destruct (F3 _ _ Hr) as (A & B & C). rewrite insert_length. split; [done|split; [done|]].
+      intros Hpc. specialize (C Hpc). rewrite list_lookup_insert_ne; [done|]. intros ->. congruence.
+  - (* a poll job is queued *)
+    split; [|split].
+    + intros k0 [Hk|Hk%elem_of_list_singleton]%elem_of_app.
+      * specialize (F1 _ Hk). rewrite lookup_app_l; [done|]. by apply lookup_lt_Some in F1.
+      * injection Hk as ->. by rewrite lookup_app_r, Nat.sub_diag.
+    + rewrite omap_app. cbn. apply NoDup_app. split; [done|]. split; [|apply NoDup_singleton].
+      intros k0 Hk%elem_of_omap_poll ->%elem_of_list_singleton. specialize (F1 _ Hk). apply lookup_lt_Some in F1. lia.
+    + intros k0 pc0 Hr. destruct (F3 _ _ Hr) as (A & B & C). rewrite app_length. cbn. split; [|split; [lia|]].
+      * intros [Hk|Hk%elem_of_list_singleton]%elem_of_app; [done|]. injection Hk as ->. lia.
+      * intros Hpc. rewrite lookup_app_l; [by apply C|done].
+Qed.
+
+Definition inv_oneshot (s : state) : Prop := length s.(wctx) + npend s.(wakes) <= 1 + ntaken s.(wctx).
+Definition pendw (w : wpc) : nat := match w with WUpgrade | WEnq => 1 | _ => 0 end.
+Definition takenw (x : wk) : nat := match x with WkTaken => 1 | _ => 0 end.
+Lemma npend_insert ws i w w' : ws !! i = Some w -> npend (<[i:=w']> ws) + pendw w = npend ws + pendw w'.
+Proof. apply (lsum_insert pendw). Qed.
+Lemma ntaken_insert c k x x' : c !! k = Some x -> ntaken (<[k:=x']> c) + takenw x = ntaken c + takenw x'.
+Proof. apply (lsum_insert takenw). Qed.
+Lemma npend_app ws w : npend (ws ++ [w]) = npend ws + pendw w.
+Proof. apply (lsum_app pendw). Qed.
+Lemma ntaken_app c x : ntaken (c ++ [x]) = ntaken c + takenw x.
+Proof. apply (lsum_app takenw). Qed.
+Arguments npend : simpl never.
+Arguments ntaken : simpl never.
+Lemma step_oneshot s a s' : inv_fresh s -> inv_oneshot s -> step s a = Some s' -> inv_oneshot s'.
+Proof.
+  unfold inv_fresh, inv_oneshot. intros (F1 & F2 & F3) HI H. step_cases s H.
+  all: rewrite ?npend_app, ?ntaken_app, ?app_length, ?insert_length; cbn [length pendw takenw].
+  all: try (match goal with Ew : _ !! _ = Some ?w |- context [npend (<[_:=?w']> _)] =>
+      pose proof (npend_insert _ _ _ w' Ew) as Hn; cbn in Hn end).
+  all: try (match goal with Ew : _ !! _ = Some ?w |- context [ntaken (<[_:=?w']> _)] =>
+      pose proof (ntaken_insert _ _ _ w' Ew) as Hm; cbn in Hm end).
+  all: try lia.
+  destruct (F3 _ _ eq_refl) as (_ & _ & C). pose proof (ntaken_insert _ _ _ WkLive (C eq_refl)) as Hm. cbn in Hm. lia.
+Qed.
+
+Definition wk_rank (x : wk) : nat := match x with WkFresh => 0 | WkLive => 1 | WkTaken => 2 end.
+Lemma step_wctx_mono s a s' : inv_fresh s -> step s a = Some s' ->
+  forall k x, s.(wctx) !! k = Some x -> exists y, s'.(wctx) !! k = Some y /\ wk_rank x <= wk_rank y.
+Proof.
+  unfold inv_fresh. intros (F1 & F2 & F3) H. step_cases s H.
+  all: intros k' x0 Hx.
+  all: try (exists x0; split; [exact Hx|lia]).
+  - destruct (F3 _ _ eq_refl) as (_ & B & C). destruct (decide (k' = k)) as [->|Hne].
+    + rewrite (C eq_refl) in Hx. injection Hx as <-. exists WkLive. rewrite list_lookup_insert by done. split; [done|cbn; lia].
+    + exists x0. rewrite list_lookup_insert_ne by done. split; [done|lia].
+  - destruct (decide (k' = k)) as [->|Hne].
+    + exists WkTaken. rewrite list_lookup_insert by (by apply lookup_lt_Some in Hx). split; [done|destruct x0; cbn; lia].
+    + exists x0. rewrite list_lookup_insert_ne by done. split; [done|lia].
+  - exists x0. rewrite lookup_app_l by (by apply lookup_lt_Some in Hx). done.
+Qed.
+
+Lemma fresh_oneshot_reach items tr s : run (init items) tr = Some s -> inv_fresh s /\ inv_oneshot s.
+Proof.
+  apply (run_ind (fun s => inv_fresh s /\ inv_oneshot s)).
+  - split.
+    + split; [intros k Hk; by apply elem_of_nil in Hk|]. split; [constructor|]. intros k pc [=].
+    + unfold inv_oneshot. vm_compute. lia.
+  - intros s0 a s1 [Hf Ho] Hs. split; [by eapply step_fresh|by eapply step_oneshot].
+Qed.
+
+Theorem one_shot items s : reachable items s -> length s.(wctx) + npend s.(wakes) <= 1 + ntaken s.(wctx).
+Proof. intros [tr H]. apply (fresh_oneshot_reach _ _ _ H). Qed.
+
+Theorem waker_monotone items s a s' : reachable items s -> step s a = Some s' ->
+  forall k x, s.(wctx) !! k = Some x -> exists y, s'.(wctx) !! k = Some y /\ wk_rank x <= wk_rank y.
+Proof. intros [tr H]. apply step_wctx_mono. apply (fresh_oneshot_reach _ _ _ H). Qed.
